@@ -118,6 +118,22 @@ func (c Cfg) compiler() *compiler.Compiler {
 
 func (c Cfg) Compile(p *ast.Program) compiler.CompileResult { return c.compiler().Compile(p) }
 
+// reusedCompilers: one long-lived Compiler value per configuration and worker process (the monitors that use it run on
+// one goroutine). A Compiler is a value a user keeps and calls Compile on for one program after the other; whatever it
+// remembers from an earlier program shows in a later one. Violations found through it need the worker's history to
+// replay (the framework re-runs the plan prefix).
+var reusedCompilers = map[Cfg]*compiler.Compiler{}
+
+// CompileReused compiles with this process's long-lived compiler of the configuration.
+func (c Cfg) CompileReused(p *ast.Program) compiler.CompileResult {
+	k := reusedCompilers[c]
+	if k == nil {
+		k = c.compiler()
+		reusedCompilers[c] = k
+	}
+	return k.Compile(p)
+}
+
 // AllCodeCfgs: compact + pretty × {tab, 0..8 spaces} × {semi, nosemi} = 21 code configurations.
 func AllCodeCfgs() []Cfg {
 	out := []Cfg{{}}
